@@ -19,6 +19,7 @@ func main() {
 	case "dns":
 		fmt.Println(c19lib.DNSStress(1, 3, 8, 400, 2*time.Millisecond))
 		fmt.Println(c19lib.DNSStress(2, 1, 8, 300, time.Millisecond))
+		fmt.Println(c19lib.DNSStress(3, 0, 8, 200, time.Millisecond))
 		if mx, fin, note := c19lib.DNSBarrier(3, 12); mx > 3 || fin > 3 || note != "" {
 			fmt.Printf("violation: barrier run: max %d final %d entries for size 3 %s\n", mx, fin, note)
 		} else {
